@@ -474,7 +474,8 @@ fn main() {
             writeln!(ops, "scn pure-{} coll=pure w={}", seed, hashbrown::verif::GROUP_WIDTH).unwrap();
             writeln!(real, "scn pure-{}", seed).unwrap();
             journal(&format!("scn pure-{} coll=pure w={}", seed, hashbrown::verif::GROUP_WIDTH));
-            for l in pure::generate(seed, thorough) {
+            let lines = if args[3] == "serde" { pure::generate_serde() } else { pure::generate(seed, thorough) };
+            for l in lines {
                 writeln!(ops, "{}", l).unwrap();
                 // journalled before it runs: a call that aborts the process (e.g. the unsafe-precondition
                 // check of Layout::from_size_align_unchecked) is the last line of the journal
